@@ -193,6 +193,20 @@ def gen_purity(rng, sol, apis=('cxx',), variant='exc', nev=10, noise=25, reverse
             evs.append((p, fn, sig, pt, rng.randint(-1, e['dim'] + 2), cb))
             if 'F' in sig:       # the same point with another caller-supplied function
                 evs.append((p, fn, sig, pt, 1, cb2))
+        # a ladder: one evaluator along a fine log-spaced line of its last coordinate (the re-evaluations in shuffled order
+        # give every rung a different predecessor); branch-dependent scratch state -- a limiter, a clipped quantity --
+        # that survives from one call to the next changes a rung's value.  The wall-bounded SA closure has such a
+        # branch (Johnson-Allmaras limiter, active in a narrow band of wall distances for small mu): 24 rungs over 2 decades
+        lad = [c for c in caps if c[0] == 'source_nu' and c[1] == 'SS'] if sol == 'fans_sa_steady_wall_bounded' else [c for c in caps if set(c[1]) == {'S'}]
+        if lad:
+            fn, sig = rng.choice(lad)
+            base = admissible_point(rng, sol, sig)
+            n = 24 if sol == 'fans_sa_steady_wall_bounded' else 8
+            p = rng.choice(['d', 'ld'])
+            for j in range(n):
+                lo, hi = (-2.0, 0.0) if sol == 'fans_sa_steady_wall_bounded' else (-0.9, -0.06)
+                yv = round(10.0 ** (lo + (hi - lo) * (j + rng.random()) / n) * 2 ** 20) / 2.0 ** 20
+                evs.append((p, fn, sig, base[:-1] + [hexf(yv)], 1, cb))
         plan = dict(other=other, P=P, P2=P2, V=V, V2=V2, cb=cb, evs=evs, seed=rng.randint(0, 10**9))
     other, P, P2, V, V2, cb, evs = plan['other'], plan['P'], plan['P2'], plan['V'], plan['V2'], plan['cb'], plan['evs']
     lrng = random.Random(plan['seed'] + (1 if reverse else 0))
